@@ -19,10 +19,8 @@ def gen_nexpr(rng, nodes, position):
     if position == "p":
         # mostly a constant; sometimes the focus node itself or what a path reaches from it (sh:this is an IRI as well,
         # but not a constant)
-        if r < 0.2:
+        if r < 0.3:
             return ("this",)
-        if r < 0.28:
-            return ("path", ("pred", str(rng.choice(PREDS))))
         return ("const", rng.choice(PREDS + [EX.s, RDF.type]))
     if r < 0.4:
         return ("this",)
@@ -67,6 +65,11 @@ def gen_case(rng):
     iri_nodes = [n for n in nodes if isinstance(n, URIRef)]
     shapes, rules = [], {}
     chain = rng.random() < 0.3
+    selffeed = chain and rng.random() < 0.5
+    if selffeed:
+        while len(iri_nodes) < 5:
+            iri_nodes.append(EX["ch%d" % len(iri_nodes)])
+            nodes.append(iri_nodes[-1])
     if chain:
         # a chain of ex:p links: the transitive-closure rule needs several rounds, conditions become true on the way
         for a, b in zip(iri_nodes, iri_nodes[1:]):
@@ -121,11 +124,22 @@ def gen_case(rng):
                 r["kind"] = ("triple", gen_nexpr(rng, iri_nodes, "s"), gen_nexpr(rng, iri_nodes, "p"), gen_nexpr(rng, iri_nodes + lits, "o"))
                 if r["kind"][1][0] == "const" and isinstance(r["kind"][1][1], Literal):
                     r["kind"] = ("triple", ("this",), r["kind"][2], r["kind"][3])
+                # a predicate taken from the focus node only where every focus node is an IRI (explicit IRI target nodes): RDF has no
+                # triples with literal or blank predicates, and what rdflib does with them is not the property's business
+                iri_focus = list(s["targets"]) == ["nodes"] or all(not v for k_, v in s["targets"].items() if k_ != "nodes")
+                iri_focus = iri_focus and all(isinstance(x, URIRef) for x in s["targets"].get("nodes", []))
+                if r["kind"][2][0] == "path" or (r["kind"][2][0] == "this" and not iri_focus):
+                    r["kind"] = ("triple", r["kind"][1], ("const", rng.choice(PREDS + [EX.s])), r["kind"][3])
             else:
                 r["kind"] = ("construct",) + rng.choice(CONSTRUCTS)
             if chain and j == 0:
                 r["kind"] = ("construct",) + CONSTRUCTS[4]
                 r["deact"] = False
+                if selffeed:
+                    # the same closure step as a TRIPLE rule that reads the predicate it writes (two hops of ex:p from the focus node):
+                    # within one pass every focus node sees the graph as it was when the pass began, whichever node is taken first
+                    r["kind"] = ("triple", ("this",), ("const", EX.p), ("path", ("seq", [("pred", str(EX.p)), ("pred", str(EX.p))])))
+                    s["targets"] = {"nodes": list(iri_nodes), "classes": [], "subjects_of": [], "objects_of": []}
             rs.append(r)
         if i == 0 and rng.random() < 0.3:
             # a dependent pair with orders that share their integer part, harvested in either order:
@@ -152,7 +166,7 @@ def gen_case(rng):
             s["targets"] = {"nodes": iri_nodes[:2], "classes": [], "subjects_of": [], "objects_of": []}
         rules[s["id"]] = rs
         shapes.append(s)
-    opts = {"iterate_rules": rng.random() < (0.8 if chain else 0.5)}
+    opts = {"iterate_rules": rng.random() < (0.3 if selffeed else 0.8 if chain else 0.5)}
     r = rng.random()
     rule_shapes = [s for s in shapes if s["id"] in rules]
     if r < 0.12:
